@@ -304,9 +304,9 @@ class HistRunner:
             self.stats['failing_commands'] += 1
         # each target at most once per run
         for n, c in ex.items():
-            if c > max(1, ctx['ran'].count(n)) and not (j > 1 and m.tainted(n)):
-                # (a target built from a failure it tolerates is dirty again whenever it is looked at in the same run; a second
-                #  requester that waited for its lock re-runs it: the same may-run as in the serial case, see Model.update)
+            if c > max(1, ctx['ran'].count(n)) and not m.tainted(n):
+                # (a target built from a failure it tolerates - directly or through a chain of tolerant consumers - is dirty again
+                #  whenever it is looked at in the same run (C05: never recorded as up to date), so it runs once per look)
                 anoms.append(Anomaly(cls='multi', key='multi:%s' % kinds_of(p, n), target=n,
                                      what='%s executed %d times in one run' % (n, c)))
         for n, pids, pid2 in overlaps(recs):
